@@ -112,6 +112,7 @@ PROPS = {
                         "loop depths are non-negative and < 2^31 (set by the polygon constructors)"],
     },
     "C13": {
+        "translators": ["translator_c19"],
         # harness generator, quick n, thorough n
         "generators": [("c13", 300, 3000)],
         "modules": ["S2.History"],
@@ -198,6 +199,7 @@ PROPS = {
                         "SignDotProd: |a|^2 <= 2 and |b|^2 <= 2; CompareDistance: r is a valid chord angle (0..4, -1 or +Inf), not NaN"],
     },
     "C19": {
+        "translators": ["translator_c19"],
         # c19: n cases (+ n/20 math.Remainder self-checks), ~900-1000 oracle lines/s on 16 cores;
         # c19cap: n cap cases (+ n/10 ChordAngle arithmetic lines), ~300 lines/s (exact 2148-bit rational judge)
         # c19capsearch: the same cap cases judged natively in Go (library + exact rational membership of Union / AddCap), ~7000 cases/s;
@@ -421,6 +423,7 @@ PROPS = {
                     "IndexWalkAgrees, ExactRelationIsPointSet, PolygonComplementLaws are stated as def : Prop, not proved"],
     },
     "C12": {
+        "translators": ["translator_c19"],
         "generators": [("c12", 1500, 20000), ("c06pc", 2000, 40000)],
         "modules": ["S2.CellM", "S2.STUV", "S2.Hilbert", "S2.CellID", "S2.F64", "S2.Exact", "S2.PaddedCellM"],
         "rule": "cells: exhaustive levels 0-2 (thorough 0-4) plus structured random cells of every level (cube corners, face edges, "
@@ -499,6 +502,7 @@ PROPS = {
                     "checked by correspondence only)"],
     },
     "C05": {
+        "translators": ["translator_c19"],
         # (generator, quick n, thorough n); c05 emits `cov` and `pred` lines, c05s18 drives normalizeCovering into its re-cover
         # branch and its merge loop (repaired defects S18 / hang: corpus/C05/fixed_S18_hang.txt; each line runs under a 20 s
         # watchdog, result token HANG).  NOT run here: c05x (`predx`: cap predicates judged with a slack of 2^-50 relative to
